@@ -931,6 +931,10 @@ type henv struct {
 	vals  []hval
 	queue string
 	snaps []uint64 // snapshot ids
+	// the current snapshot as VerifyEvidence weighs with it: share per validator index, recorded total
+	shares  []int64
+	total   int64
+	snapNow uint64
 }
 
 func valAddr(i int) sdk.ValAddress {
@@ -1022,6 +1026,16 @@ func newEnv(t *testing.T, r *rand.Rand, live bool) *henv {
 		}
 		e.snaps = append(e.snaps, sn.Id)
 	}
+	cur, err := f.ValsetKeeper.GetCurrentSnapshot(e.ctx)
+	must(err)
+	e.snapNow, e.total = cur.Id, cur.TotalShares.Int64()
+	for _, v := range e.vals {
+		sv, ok := cur.GetValidator(v.addr)
+		if !ok {
+			t.Fatal("validator missing from the current snapshot")
+		}
+		e.shares = append(e.shares, sv.ShareCount.Int64())
+	}
 	if live {
 		must(e.evm.ActivateChainReferenceID(e.ctx, chainName, sc, "0x00000000000000000000000000000000000c0de1", []byte("uid-c07")))
 		must(f.ValsetKeeper.SetSnapshotOnChain(e.ctx, e.snaps[0], chainName))
@@ -1029,6 +1043,22 @@ func newEnv(t *testing.T, r *rand.Rand, live bool) *henv {
 		must(e.evm.SetSmartContractDeployer(e.ctx, chainName, "0x0000000000000000000000000000000000de9101"))
 	}
 	return e
+}
+
+func (e *henv) coqShares() string {
+	s := make([]string, len(e.shares))
+	for i, x := range e.shares {
+		s[i] = emit.Pair(emit.ZI(int64(i)), emit.ZI(x))
+	}
+	return emit.List(s)
+}
+
+// the snapshot the votes are weighed with must still be the one recorded at set-up (the model's is fixed per history)
+func (e *henv) checkSnapshot(t *testing.T) {
+	cur, err := e.f.ValsetKeeper.GetCurrentSnapshot(e.ctx)
+	if err != nil || cur.Id != e.snapNow {
+		t.Fatalf("the current snapshot changed during the history (%v)", err)
+	}
 }
 
 func (e *henv) q(t *testing.T) consensus.Queuer {
@@ -1187,6 +1217,50 @@ type winInfo struct {
 	status int64
 }
 
+// rcpt: one receipt as a validator reports it.  fields = what the model sees of it:
+// [type; post state; status; cumulative gas; bloom; logs] (byte strings interned)
+type rcpt struct {
+	status int64
+	bytes  []byte // Receipt.MarshalBinary
+	fields [6]int64
+	what   string
+}
+
+// report: what one validator hands in for one message
+type report struct {
+	kind  int // 1 transaction proof, 2 error proof, 3 another registered proof type
+	tx    *txInfo
+	rc    *rcpt // nil: no receipt bytes
+	msg   string
+	tag   int64 // kind 3: 3 validator balances, 4 reference block
+	data  []byte
+	any   *codectypes.Any
+	ident string // the harness's own notion of "the same report", independent of BytesToHash
+}
+
+type valReport struct {
+	val int // index into henv.vals; >= len(vals): an address outside the snapshot
+	rep *report
+}
+
+func (rp *report) coq() string {
+	switch rp.kind {
+	case 1:
+		rc := "None"
+		if rp.rc != nil {
+			f := make([]string, 6)
+			for i, x := range rp.rc.fields {
+				f[i] = emit.ZI(x)
+			}
+			rc = "(Some " + emit.List(f) + ")"
+		}
+		return fmt.Sprintf("(C07.XPTx %d %s %s)", rp.tx.hashID, rp.tx.spec.coq(), rc)
+	case 2:
+		return fmt.Sprintf("(C07.XPErr %d)", tab.id([]byte("err:"+rp.msg)))
+	}
+	return fmt.Sprintf("(C07.XPOther %d %d)", rp.tag, tab.id(rp.data))
+}
+
 func classify(err error) int {
 	switch {
 	case err == nil:
@@ -1271,7 +1345,8 @@ type history struct {
 	steps   []string
 	log     []string
 	txs     []*txInfo
-	win     map[uint64]winInfo  // message id -> current winner
+	win     map[uint64]winInfo  // message id -> what 2/3 of the current snapshot's shares reported identically (the harness's own count)
+	reports map[uint64][]valReport // message id -> stored reports, in order of first submission
 	known   map[uint64]*bodyT   // bodies of queued messages as the model knows them
 	effects [][2]int64          // cumulative, from store diffs
 	usedTx  map[int64]uint64    // hash id -> message id it produced a follow-up / acceptance for
@@ -1369,7 +1444,7 @@ func (h *history) oracle(id uint64, b *bodyT, w winInfo, cls int, vsBefore vset,
 		case (accepted || stateEffect) && !ok:
 			h.run.Violate("C07:effects-for-non-matching-tx", fmt.Sprintf("message %d (kind %d): a transaction whose call differs from the message's was accepted (class %d, store effect %v)", id, b.Kind, cls, stateEffect), replay)
 		case (accepted || stateEffect) && w.status != 1:
-			h.run.Violate("C07:effects-on-failed-receipt", fmt.Sprintf("message %d (kind %d): receipt status %d, yet accepted (class %d, store effect %v)", id, b.Kind, w.status, cls, stateEffect), replay)
+			h.run.Violate("C07:effects-on-failed-receipt", fmt.Sprintf("message %d (kind %d): receipt status %d, yet accepted (class %d, store effect %v) -- reports: %s", id, b.Kind, w.status, cls, stateEffect, h.reportsLine(id)), replay)
 		case (accepted || stateEffect) && (wasProcessed || usedBefore):
 			h.run.Violate("C07:tx-accepted-twice", fmt.Sprintf("message %d (kind %d): transaction already used for message %d accepted again", id, b.Kind, h.usedTx[w.tx.hashID]), replay)
 		}
@@ -1384,7 +1459,16 @@ func (h *history) oracle(id uint64, b *bodyT, w winInfo, cls int, vsBefore vset,
 			h.nReject++
 		}
 	} else if stateEffect {
-		h.run.Violate("C07:effects-without-tx", fmt.Sprintf("message %d (kind %d): success follow-up without a transaction proof", id, b.Kind), replay)
+		h.run.Violate("C07:effects-without-tx", fmt.Sprintf("message %d (kind %d): success follow-up without a transaction proof agreed on by 2/3 of the shares (reports: %s)", id, b.Kind, h.reportsLine(id)), replay)
+	}
+}
+
+// oracleUnagreed: attestRouter ran on one message for which 2/3 of the shares agree on no transaction
+// proof and no error proof: nothing may be concluded from the reports, the message must still be queued
+func (h *history) oracleUnagreed(id uint64, b *bodyT, w winInfo, cls int, stillQueued bool) {
+	if (w.kind == 0 || w.kind == 3) && !stillQueued {
+		replay := map[string]any{"part": "B", "seed": h.run.Seed, "history": append([]string{}, h.log...)}
+		h.run.Violate("C07:attested-without-agreed-evidence", fmt.Sprintf("message %d (kind %d): attested and dropped (class %d) although no transaction or error proof was reported identically by 2/3 of the shares (reports: %s)", id, b.Kind, cls, h.reportsLine(id)), replay)
 	}
 }
 
@@ -1408,42 +1492,199 @@ func (h *history) addTx(spec *callSpec, nonce uint64) *txInfo {
 	return x
 }
 
-func (h *history) proofAny(x *txInfo, status int64, b *bodyT) *codectypes.Any {
+// receipt variants: what a validator may report about one transaction
+const (
+	rvPlain   = iota // status as given, the logs the follow-up needs, gas 21000, typed
+	rvLogs           // one more log
+	rvGas            // another cumulative gas
+	rvLegacy         // serialised without the EIP-2718 type prefix
+	rvPost           // pre-Byzantium: a post state root instead of the status (decodes as status 0)
+	rvNoBloom        // empty bloom
+)
+
+var rvNames = []string{"plain", "logs", "gas", "legacy", "poststate", "bloom"}
+
+func (h *history) receipt(x *txInfo, b *bodyT, status int64, variant int) *rcpt {
+	rc := &ethtypes.Receipt{Type: x.tx.Type(), Status: uint64(status), CumulativeGasUsed: 21000, Logs: []*ethtypes.Log{}}
+	if b.Kind == kUploadUser {
+		// the ContractDeployed(child, deployer, event_id) log the follow-up reads the address from
+		data, err := compassABI.Events["ContractDeployed"].Inputs.Pack(common.HexToAddress("0x00000000000000000000000000000000000c41d1"), common.HexToAddress(b.Deployer), big.NewInt(7))
+		if err != nil {
+			h.t.Fatal(err)
+		}
+		rc.Logs = append(rc.Logs, &ethtypes.Log{Topics: []common.Hash{crypto.Keccak256Hash([]byte("ContractDeployed(address,address,uint256)"))}, Data: data})
+	}
+	switch variant {
+	case rvLogs:
+		rc.Logs = append(rc.Logs, &ethtypes.Log{Address: common.HexToAddress("0x00000000000000000000000000000000000c0de1"), Topics: []common.Hash{crypto.Keccak256Hash([]byte("Other()"))}})
+	case rvGas:
+		rc.CumulativeGasUsed = 21001
+	case rvLegacy:
+		rc.Type = ethtypes.LegacyTxType
+	case rvPost:
+		rc.PostState = crypto.Keccak256([]byte("state"))
+	}
+	rc.Bloom = ethtypes.CreateBloom(ethtypes.Receipts{rc})
+	if variant == rvNoBloom {
+		rc.Bloom = ethtypes.Bloom{}
+	}
+	bz, err := rc.MarshalBinary()
+	if err != nil {
+		h.t.Fatal(err)
+	}
+	// what a node decoding these bytes sees (the attester's view)
+	var dec ethtypes.Receipt
+	if err := dec.UnmarshalBinary(bz); err != nil {
+		h.t.Fatal(err)
+	}
+	out := &rcpt{status: int64(dec.Status), bytes: bz, what: fmt.Sprintf("status=%d/%s", dec.Status, rvNames[variant])}
+	post := int64(0)
+	if len(dec.PostState) > 0 {
+		post = tab.id(dec.PostState)
+	}
+	var logs bytes.Buffer
+	for _, l := range dec.Logs {
+		logs.Write(l.Address.Bytes())
+		for _, tp := range l.Topics {
+			logs.Write(tp.Bytes())
+		}
+		logs.WriteByte(0xff)
+		logs.Write(l.Data)
+		logs.WriteByte(0xfe)
+	}
+	out.fields = [6]int64{int64(dec.Type), post, int64(dec.Status), int64(dec.CumulativeGasUsed), tab.id(dec.Bloom.Bytes()), tab.id(logs.Bytes())}
+	return out
+}
+
+func (h *history) txReport(x *txInfo, rc *rcpt) *report {
 	stx, err := x.tx.MarshalBinary()
 	if err != nil {
 		h.t.Fatal(err)
 	}
 	pr := &evmtypes.TxExecutedProof{SerializedTX: stx}
-	if status >= 0 {
-		rc := &ethtypes.Receipt{Type: x.tx.Type(), Status: uint64(status), CumulativeGasUsed: 21000, Logs: []*ethtypes.Log{}}
-		if b.Kind == kUploadUser && status == 1 {
-			// the ContractDeployed(child, deployer, event_id) log the follow-up reads the address from
-			data, err := compassABI.Events["ContractDeployed"].Inputs.Pack(common.HexToAddress("0x00000000000000000000000000000000000c41d1"), common.HexToAddress(b.Deployer), big.NewInt(7))
-			if err != nil {
-				h.t.Fatal(err)
-			}
-			rc.Logs = append(rc.Logs, &ethtypes.Log{Topics: []common.Hash{crypto.Keccak256Hash([]byte("ContractDeployed(address,address,uint256)"))}, Data: data})
-		}
-		rc.Bloom = ethtypes.CreateBloom(ethtypes.Receipts{rc})
-		pr.SerializedReceipt, err = rc.MarshalBinary()
-		if err != nil {
-			h.t.Fatal(err)
-		}
+	ident := fmt.Sprintf("tx/%d/none", x.hashID)
+	if rc != nil {
+		pr.SerializedReceipt = rc.bytes
+		ident = fmt.Sprintf("tx/%d/%x", x.hashID, rc.bytes)
 	}
 	a, err := codectypes.NewAnyWithValue(pr)
 	if err != nil {
 		h.t.Fatal(err)
 	}
-	return a
+	return &report{kind: 1, tx: x, rc: rc, any: a, ident: ident}
 }
 
-func (h *history) submitEvidence(id uint64, a *codectypes.Any, who []int) {
+func (h *history) errReport(msg string) *report {
+	a, err := codectypes.NewAnyWithValue(&evmtypes.SmartContractExecutionErrorProof{ErrorMessage: msg})
+	if err != nil {
+		h.t.Fatal(err)
+	}
+	return &report{kind: 2, msg: msg, any: a, ident: "err/" + msg}
+}
+
+// another registered proof type: never a reason for a success follow-up
+func (h *history) otherReport(which int, n int64) *report {
+	var a *codectypes.Any
+	var err error
+	rp := &report{kind: 3}
+	if which == 0 {
+		a, err = codectypes.NewAnyWithValue(&evmtypes.ValidatorBalancesAttestationRes{BlockHeight: uint64(n), Balances: []string{"1", "2"}})
+		rp.tag, rp.data = 3, []byte(fmt.Sprintf("balances/%d", n))
+	} else {
+		a, err = codectypes.NewAnyWithValue(&evmtypes.ReferenceBlockAttestationRes{BlockHeight: uint64(n), BlockHash: "0xabc"})
+		rp.tag, rp.data = 4, []byte(fmt.Sprintf("refblock/%d", n))
+	}
+	if err != nil {
+		h.t.Fatal(err)
+	}
+	rp.any, rp.ident = a, string(rp.data)
+	return rp
+}
+
+func (h *history) valAddress(i int) sdk.ValAddress {
+	if i < len(h.e.vals) {
+		return h.e.vals[i].addr
+	}
+	return valAddr(i) // nobody's validator: not in the snapshot
+}
+
+// submit: the real AddMessageEvidence, validator by validator in the given order; the model gets
+// the same submissions; the harness's own count of who reported what is updated
+func (h *history) submit(id uint64, rp *report, who []int) {
+	var ok []string
 	for _, i := range who {
-		err := h.e.f.ConsensusKeeper.AddMessageEvidence(h.e.ctx, h.e.vals[i].addr, &consensustypes.MsgAddEvidence{Proof: a, MessageID: id, QueueTypeName: h.e.queue})
+		err := h.e.f.ConsensusKeeper.AddMessageEvidence(h.e.ctx, h.valAddress(i), &consensustypes.MsgAddEvidence{Proof: rp.any, MessageID: id, QueueTypeName: h.e.queue})
 		if err != nil {
 			h.t.Fatalf("AddMessageEvidence: %v", err)
 		}
+		ok = append(ok, emit.ZI(int64(i)))
+		found := false
+		for k := range h.reports[id] {
+			if h.reports[id][k].val == i {
+				h.reports[id][k].rep, found = rp, true
+			}
+		}
+		if !found {
+			h.reports[id] = append(h.reports[id], valReport{i, rp})
+		}
 	}
+	h.win[id] = h.agreed(id)
+	h.record(fmt.Sprintf("C07.XAddEv %d %s %s", id, emit.List(ok), rp.coq()), 0)
+}
+
+// agreed: the report that validators holding 2/3 of the current snapshot's shares handed in
+// IDENTICALLY (same transaction and same receipt bytes / same error message), by the harness's own
+// count -- it knows nothing of BytesToHash or of the grouping inside VerifyEvidence
+func (h *history) agreed(id uint64) winInfo {
+	sum := map[string]int64{}
+	rep := map[string]*report{}
+	for _, vr := range h.reports[id] {
+		if vr.val < len(h.e.shares) {
+			sum[vr.rep.ident] += h.e.shares[vr.val]
+		}
+		rep[vr.rep.ident] = vr.rep
+	}
+	for k, p := range sum {
+		if 3*p >= 2*h.e.total {
+			rp := rep[k]
+			switch rp.kind {
+			case 1:
+				st := int64(-1)
+				if rp.rc != nil {
+					st = rp.rc.status
+				}
+				return winInfo{kind: 1, tx: rp.tx, status: st}
+			case 2:
+				return winInfo{kind: 2}
+			}
+			return winInfo{kind: 3}
+		}
+	}
+	return winInfo{}
+}
+
+func (h *history) rcName(rc *rcpt) string {
+	if rc == nil {
+		return "no-receipt"
+	}
+	return rc.what
+}
+
+func (h *history) reportsLine(id uint64) string {
+	var s []string
+	for _, vr := range h.reports[id] {
+		w := vr.rep.ident
+		if vr.rep.kind == 1 {
+			w = fmt.Sprintf("tx#%d", vr.rep.tx.hashID)
+			if vr.rep.rc != nil {
+				w += "/" + vr.rep.rc.what
+			} else {
+				w += "/no-receipt"
+			}
+		}
+		s = append(s, fmt.Sprintf("v%d:%s", vr.val, w))
+	}
+	return strings.Join(s, " ")
 }
 
 func runHistory(t *testing.T, run *emit.Run, idx int) {
@@ -1451,7 +1692,7 @@ func runHistory(t *testing.T, run *emit.Run, idx int) {
 	live := r.Intn(5) != 0
 	e := newEnv(t, r, live)
 	p := newPools(r)
-	h := &history{t: t, run: run, e: e, p: p, win: map[uint64]winInfo{}, known: map[uint64]*bodyT{}, usedTx: map[int64]uint64{}, done: map[uint64]bool{},
+	h := &history{t: t, run: run, e: e, p: p, win: map[uint64]winInfo{}, reports: map[uint64][]valReport{}, known: map[uint64]*bodyT{}, usedTx: map[int64]uint64{}, done: map[uint64]bool{},
 		vsid: map[uint64]uint64{}, gas: map[uint64]uint64{}, sigs: map[uint64][]sigE{}}
 	logf := func(f string, a ...any) { h.log = append(h.log, fmt.Sprintf(f, a...)) }
 	logf("env live=%v snapshots=%v", live, e.snaps)
@@ -1651,8 +1892,11 @@ func runHistory(t *testing.T, run *emit.Run, idx int) {
 			logf("replace id=%d", m.id)
 			run.Count("B.op", "replace")
 			h.record(fmt.Sprintf("C07.XReplace %d %s", m.id, b.coq()), 0)
-		case op < 78: // evidence
+		case op < 78: // evidence: the validators report, one by one
 			m, _ := noWinner()
+			if r.Intn(4) == 0 {
+				m, _ = pick()
+			}
 			b := h.known[m.id]
 			if b.NoFees {
 				run.Count("B.op", "evidence-for-message-without-fees")
@@ -1662,88 +1906,169 @@ func runHistory(t *testing.T, run *emit.Run, idx int) {
 				vs, _ = e.snapVS(vid)
 			}
 			sigs := h.sigs[m.id]
-			mode := r.Intn(20)
-			var w winInfo
-			var any *codectypes.Any
-			all := []int{0, 1, 2, 3}
-			switch {
-			case mode < 12: // a transaction proof
-				var x *txInfo
-				status := int64(1)
-				what := ""
+			// a transaction for this message: the right one (some admissible prefix), a corrupted one, one seen before, the right call in a fresh transaction
+			someTx := func() (*txInfo, string) {
 				switch k := r.Intn(12); {
-				case k < 5: // the right transaction (some admissible prefix)
+				case k < 5:
 					i := len(sigs)
 					if i > 0 && r.Intn(2) == 0 {
 						i = 1 + r.Intn(i)
 					}
 					nonce++
-					x = h.addTx(b.correct(m.id, h.gas[m.id], vs, sigs, i), nonce)
-					what = fmt.Sprintf("correct prefix=%d/%d", i, len(sigs))
-				case k < 8: // corrupted
+					return h.addTx(b.correct(m.id, h.gas[m.id], vs, sigs, i), nonce), fmt.Sprintf("correct prefix=%d/%d", i, len(sigs))
+				case k < 8:
 					c := b.correct(m.id, h.gas[m.id], vs, sigs, len(sigs))
 					fs := fieldsOf(c.Method)
 					for j, n := 0, 1+r.Intn(2); j < n; j++ {
 						p.corrupt(c, fs[r.Intn(len(fs))])
 					}
 					nonce++
-					x = h.addTx(c, nonce)
-					what = "corrupted"
-				case k < 10 && len(h.txs) > 0: // a transaction seen before (same hash)
-					x = h.txs[r.Intn(len(h.txs))]
-					what = "reused"
-				default: // the right call data inside a different transaction (other nonce)
-					nonce++
-					x = h.addTx(b.correct(m.id, h.gas[m.id], vs, sigs, len(sigs)), nonce)
-					what = "correct-fresh"
+					return h.addTx(c, nonce), "corrupted"
+				case k < 10 && len(h.txs) > 0:
+					return h.txs[r.Intn(len(h.txs))], "reused"
 				}
+				nonce++
+				return h.addTx(b.correct(m.id, h.gas[m.id], vs, sigs, len(sigs)), nonce), "correct-fresh"
+			}
+			someReceipt := func(x *txInfo) *rcpt {
 				switch r.Intn(8) {
 				case 0:
-					status = 0
+					return h.receipt(x, b, 0, rvPlain)
 				case 1:
-					status = -1 // no receipt bytes
+					return nil // no receipt bytes
 				}
-				any = h.proofAny(x, status, b)
-				w = winInfo{kind: 1, tx: x, status: status}
-				logf("evidence id=%d tx(%s) hash#%d status=%d", m.id, what, x.hashID, status)
-				run.Count("B.evidence", strings.SplitN(what, " ", 2)[0]+fmt.Sprintf(" status=%d", status))
-			case mode < 15: // error proof; retries are exhausted so that nothing is re-queued
-				a, err := codectypes.NewAnyWithValue(&evmtypes.SmartContractExecutionErrorProof{ErrorMessage: fmt.Sprintf("boom-%d", r.Intn(3))})
-				if err != nil {
-					t.Fatal(err)
+				return h.receipt(x, b, 1, rvPlain)
+			}
+			order := r.Perm(len(e.vals))
+			if r.Intn(6) == 0 { // somebody who is no validator reports too
+				k := r.Intn(len(order) + 1)
+				order = append(order[:k:k], append([]int{len(e.vals) + 3}, order[k:]...)...)
+			}
+			mode := r.Intn(24)
+			switch {
+			case mode < 7: // everybody reports the same transaction proof
+				x, what := someTx()
+				rc := someReceipt(x)
+				rp := h.txReport(x, rc)
+				logf("evidence id=%d unanimous tx(%s) hash#%d %s by %v", m.id, what, x.hashID, h.rcName(rc), order)
+				run.Count("B.evidence", strings.SplitN(what, " ", 2)[0]+" "+h.rcName(rc))
+				h.submit(m.id, rp, order)
+			case mode < 15: // one transaction, two receipts: the validators disagree about what happened to it
+				x, what := someTx()
+				if r.Intn(3) != 0 && !strings.HasPrefix(what, "correct") { // mostly about the right transaction: that is where a wrong status matters
+					nonce++
+					x, what = h.addTx(b.correct(m.id, h.gas[m.id], vs, sigs, len(sigs)), nonce), "correct"
 				}
-				if b.Kind == kSLC || b.Kind == kUploadUser || b.Kind == kUploadCompass {
-					if b.Retries < 2 {
-						continue
+				stA := int64(r.Intn(2))
+				if r.Intn(3) == 0 {
+					stA = 0
+				}
+				var rcA, rcB *rcpt
+				rcA = h.receipt(x, b, stA, rvPlain)
+				diff := "status"
+				switch k := r.Intn(12); {
+				case k < 6:
+					rcB = h.receipt(x, b, 1-stA, rvPlain)
+				case k == 6:
+					rcB, diff = h.receipt(x, b, stA, rvLogs), "logs"
+				case k == 7:
+					rcB, diff = h.receipt(x, b, stA, rvGas), "gas"
+				case k == 8:
+					rcB, diff = h.receipt(x, b, stA, rvLegacy), "type"
+				case k == 9:
+					rcB, diff = h.receipt(x, b, stA, rvPost), "poststate"
+				case k == 10:
+					rcB, diff = h.receipt(x, b, stA, rvNoBloom), "bloom"
+				default:
+					rcB, diff = nil, "absent"
+				}
+				// who dissents (reports B): a non-empty proper subset of the reporters, mostly one of them
+				nd := 1
+				if r.Intn(3) == 0 {
+					nd = 1 + r.Intn(len(order)-1)
+				}
+				pos := r.Perm(len(order))[:nd]
+				isD := map[int]bool{}
+				for _, k := range pos {
+					isD[order[k]] = true
+				}
+				var maj, dis []int
+				for _, v := range order {
+					if isD[v] {
+						dis = append(dis, v)
+					} else {
+						maj = append(maj, v)
 					}
 				}
-				any, w = a, winInfo{kind: 2}
-				logf("evidence id=%d error proof", m.id)
-				run.Count("B.evidence", "error-proof")
-			default: // split vote: no consensus
+				rpA, rpB := h.txReport(x, rcA), h.txReport(x, rcB)
+				when := "first"
+				switch r.Intn(4) {
+				case 0:
+					when = "last"
+				case 1:
+					when = "between"
+				}
+				logf("evidence id=%d tx(%s) hash#%d receipts differ in %s: %v report %s, %v report %s (dissent %s)", m.id, what, x.hashID, diff, maj, h.rcName(rcA), dis, h.rcName(rcB), when)
+				run.Count("B.evidence", "disagree:"+diff+" dissent-"+when)
+				switch when {
+				case "first":
+					h.submit(m.id, rpB, dis)
+					h.submit(m.id, rpA, maj)
+				case "last":
+					h.submit(m.id, rpA, maj)
+					h.submit(m.id, rpB, dis)
+				default:
+					k := r.Intn(len(maj) + 1)
+					if k > 0 {
+						h.submit(m.id, rpA, maj[:k])
+					}
+					h.submit(m.id, rpB, dis)
+					if k < len(maj) {
+						h.submit(m.id, rpA, maj[k:])
+					}
+				}
+			case mode < 17: // one or two validators report (or change their mind): evidence accumulates over several steps
+				who := order[:1+r.Intn(2)]
+				var rp *report
+				if prev := h.reports[m.id]; len(prev) > 0 && r.Intn(2) == 0 {
+					rp = prev[r.Intn(len(prev))].rep // join somebody else's report
+				} else {
+					x, _ := someTx()
+					rp = h.txReport(x, someReceipt(x))
+				}
+				logf("evidence id=%d partial %v report %s", m.id, who, rp.ident[:min(len(rp.ident), 24)])
+				run.Count("B.evidence", "partial")
+				h.submit(m.id, rp, who)
+			case mode < 20: // error proof; below the retry limit the action is queued again by the keeper (learnt from the stores)
+				msg := fmt.Sprintf("boom-%d", r.Intn(3))
+				if r.Intn(4) == 0 { // two error messages
+					logf("evidence id=%d error proofs, split", m.id)
+					run.Count("B.evidence", "error-proof split")
+					h.submit(m.id, h.errReport(msg), order[:1])
+					h.submit(m.id, h.errReport(msg+"!"), order[1:])
+				} else {
+					logf("evidence id=%d error proof retries=%d", m.id, b.Retries)
+					run.Count("B.evidence", fmt.Sprintf("error-proof retries=%d", b.Retries))
+					h.submit(m.id, h.errReport(msg), order)
+				}
+			case mode < 21: // a registered proof type that is neither: nothing may follow from it
+				rp := h.otherReport(r.Intn(2), int64(1+r.Intn(3)))
+				logf("evidence id=%d other proof type %s", m.id, rp.ident)
+				run.Count("B.evidence", "other-proof-type")
+				h.submit(m.id, rp, order)
+			default: // two transactions, no consensus
 				nonce++
 				x1 := h.addTx(b.correct(m.id, h.gas[m.id], vs, sigs, len(sigs)), nonce)
 				nonce++
 				x2 := h.addTx(b.correct(m.id, h.gas[m.id], vs, sigs, len(sigs)), nonce)
-				h.submitEvidence(m.id, h.proofAny(x1, 1, b), []int{0, 3})
-				h.submitEvidence(m.id, h.proofAny(x2, 1, b), []int{1, 2})
-				w = winInfo{kind: 0}
-				logf("evidence id=%d split", m.id)
+				logf("evidence id=%d split between two transactions", m.id)
 				run.Count("B.evidence", "split")
+				h.submit(m.id, h.txReport(x1, h.receipt(x1, b, 1, rvPlain)), []int{0, 3})
+				h.submit(m.id, h.txReport(x2, h.receipt(x2, b, 1, rvPlain)), []int{1, 2})
 			}
-			if any != nil {
-				h.submitEvidence(m.id, any, all)
-			}
-			h.win[m.id] = w
+			logf("  reports id=%d: %s => agreed kind=%d status=%d", m.id, h.reportsLine(m.id), h.win[m.id].kind, h.win[m.id].status)
 			run.Count("B.op", "evidence")
-			cw := "C07.XNone"
-			switch w.kind {
-			case 1:
-				cw = fmt.Sprintf("(C07.XTx %d %s %s)", w.tx.hashID, w.tx.spec.coq(), emit.ZI(w.status))
-			case 2:
-				cw = "C07.XErr"
-			}
-			h.record(fmt.Sprintf("C07.XEvidence %d %s", m.id, cw), 0)
+			run.Count("B.agreed", fmt.Sprintf("kind=%d status=%d", h.win[m.id].kind, h.win[m.id].status))
 		case op < 95: // attestRouter on one message
 			m, _ := withWinner()
 			b, w := h.known[m.id], h.win[m.id]
@@ -1765,6 +2090,8 @@ func runHistory(t *testing.T, run *emit.Run, idx int) {
 				t.Logf("DISAGREE id=%d cls=%d kind=%d gas=%d/%d vsid=%d nsigs=%d/%d pad=%v stored=%+v", m.id, cls, b.Kind, h.gas[m.id], m.raw.GetGasEstimate(), h.vsid[m.id], len(h.sigs[m.id]), len(m.raw.GetSignData()), m.raw.GetPublicAccessData(), cm)
 			}
 			h.oracle(m.id, b, w, cls, vs, eff, was)
+			h.oracleUnagreed(m.id, b, w, cls, h.ids()[m.id])
+			e.checkSnapshot(t)
 			if w.kind == 1 && (cls == 1 || cls == 2) { // refused for good: count what the relayer's metrix record says (observation only:
 				// the record is not one of the success effects the property lists; the model follows the code and X compares it)
 				for _, rr := range h.observe(cls).relay {
@@ -1783,7 +2110,7 @@ func runHistory(t *testing.T, run *emit.Run, idx int) {
 	}
 	run.Count("B.history", fmt.Sprintf("live=%v", live))
 	run.Count("B.accepted", fmt.Sprint(min(h.nAccept, 3)))
-	run.Case(fmt.Sprintf("C07.CHistory %s %d %s", emit.List(snaps), n0, emit.List(h.steps)), h.nAccept > 0 && h.nReject > 0,
+	run.Case(fmt.Sprintf("C07.CHistory %s %d %s %d %s", emit.List(snaps), n0, e.coqShares(), e.total, emit.List(h.steps)), h.nAccept > 0 && h.nReject > 0,
 		map[string]any{"history": h.log})
 	_ = bytes.Equal
 	_ = json.Marshal
@@ -2007,7 +2334,7 @@ func runTwin(t *testing.T, run *emit.Run) {
 	r := run.Rng
 	e := newEnv(t, r, true)
 	p := newPools(r)
-	h := &history{t: t, run: run, e: e, p: p, win: map[uint64]winInfo{}, known: map[uint64]*bodyT{}, usedTx: map[int64]uint64{}, done: map[uint64]bool{},
+	h := &history{t: t, run: run, e: e, p: p, win: map[uint64]winInfo{}, reports: map[uint64][]valReport{}, known: map[uint64]*bodyT{}, usedTx: map[int64]uint64{}, done: map[uint64]bool{},
 		vsid: map[uint64]uint64{}, gas: map[uint64]uint64{}, sigs: map[uint64][]sigE{}}
 	logf := func(f string, a ...any) { h.log = append(h.log, fmt.Sprintf(f, a...)) }
 	var snaps []string
@@ -2072,10 +2399,8 @@ func runTwin(t *testing.T, run *emit.Run) {
 	x1 := h.addTx(b.correct(ids[0], 0, vs, h.sigs[ids[0]], i), 1)
 	x2 := h.addTx(b.correct(ids[0], 0, vs, h.sigs[ids[0]], i), 2) // same call data, another transaction
 	evidence := func(id uint64, x *txInfo) {
-		h.submitEvidence(id, h.proofAny(x, 1, b), []int{0, 1, 2, 3})
-		h.win[id] = winInfo{kind: 1, tx: x, status: 1}
 		logf("evidence id=%d hash#%d", id, x.hashID)
-		h.record(fmt.Sprintf("C07.XEvidence %d (C07.XTx %d %s 1)", id, x.hashID, x.spec.coq()), 0)
+		h.submit(id, h.txReport(x, h.receipt(x, b, 1, rvPlain)), r.Perm(len(e.vals)))
 	}
 	attest := func(id uint64, viaBlock bool) int {
 		w := h.win[id]
@@ -2122,7 +2447,7 @@ func runTwin(t *testing.T, run *emit.Run) {
 		c3 = attest(ids[1], false)
 	}
 	run.Count("B.twin", fmt.Sprintf("first=%d reuse=%d fresh=%d", c1, c2, c3))
-	run.Case(fmt.Sprintf("C07.CHistory %s %d %s", emit.List(snaps), n0, emit.List(h.steps)), true, map[string]any{"history": h.log})
+	run.Case(fmt.Sprintf("C07.CHistory %s %d %s %d %s", emit.List(snaps), n0, e.coqShares(), e.total, emit.List(h.steps)), true, map[string]any{"history": h.log})
 }
 
 func TestCorr(t *testing.T) {
